@@ -4,6 +4,7 @@ import (
 	"encoding/json"
 	"fmt"
 	"sort"
+	"strings"
 
 	"github.com/advancedclimatesystems/gonnx/onnx"
 	"verifmc/hx"
@@ -24,7 +25,7 @@ func init() {
 		}
 		for _, bm := range batchModels(true) {
 			if bm.Name == r.Model {
-				return bm.check(r.Batch, 4)
+				return bm.check(r.Batch, 5)
 			}
 		}
 		return &hx.Violation{Kind: "bad-replay", Detail: "unknown model " + r.Model}
@@ -42,6 +43,7 @@ type batchModel struct {
 	In    map[string]batchIO
 	Out   map[string]int // output name -> batch axis
 	solo  map[int]map[string]*ref.T
+	Big   bool // sample 2 of the pool is 150 times larger than the others
 }
 
 // stack concatenates per-sample tensors (extent 1 on axis) along axis.
@@ -68,7 +70,11 @@ func (bm *batchModel) sample(name string, k int) *ref.T {
 	for _, c := range name {
 		salt += int(c)
 	}
-	return recFill(ref.F32, io.Shape, salt)
+	t := recFill(ref.F32, io.Shape, salt)
+	if bm.Big && k == 2 {
+		t = ref.Fill(ref.F32, io.Shape, func(i int) float64 { return t.F(i) * 150 })
+	}
+	return t
 }
 
 func (bm *batchModel) run(batch []int) (hx.Result, []string) {
@@ -123,6 +129,9 @@ func (bm *batchModel) check(batch []int, pool int) *hx.Violation {
 			got := row(res.Outs[oi], ax, i)
 			want := soloRes.Outs[oi]
 			cmp := hx.Tol(1e-5, 1e-6)
+			if bm.Big {
+				cmp = hx.Tol(1e-5, 2e-4) // rounding of intermediate values of magnitude ~300 (ulp 3e-5)
+			}
 			if !got.DT.IsFloat() {
 				cmp = hx.Bits
 			}
@@ -246,6 +255,25 @@ func batchModels(all bool) []*batchModel {
 	mkModel("Conv2D+bias", "x", []hx.DimSpec{N, fx(2), fx(3), fx(4)}, batchIO{[]int{1, 2, 3, 4}, 0}, nil, []*onnx.NodeProto{hx.Node("Conv", []string{"x", "K", "kb"}, []string{"y"}, []hx.Attr{hx.AInts("pads", 1, 0, 0, 1), hx.AInts("strides", 1, 2)})}, []*onnx.TensorProto{init("K", 2, 2, 2, 2), init("kb", 2)}, map[string]int{"y": 0}, nil, nil)
 	mkModel("Conv2D-1x1", "x", []hx.DimSpec{N, fx(2), fx(3), fx(4)}, batchIO{[]int{1, 2, 3, 4}, 0}, nil, []*onnx.NodeProto{hx.Node("Conv", []string{"x", "K1"}, []string{"y"}, nil)}, []*onnx.TensorProto{init("K1", 3, 2, 1, 1)}, map[string]int{"y": 0}, nil, nil)
 	mkModel("Conv1D+bias", "x", []hx.DimSpec{N, fx(2), fx(5)}, batchIO{[]int{1, 2, 5}, 0}, nil, []*onnx.NodeProto{hx.Node("Conv", []string{"x", "K", "kb"}, []string{"y"}, []hx.Attr{hx.AInts("dilations", 2)})}, []*onnx.TensorProto{init("K", 2, 2, 2), init("kb", 2)}, map[string]int{"y": 0}, nil, nil)
+	// samples of very different magnitude in one batch (sample 2 is 150 times larger): Softmax slices are independent
+	for _, lg := range []string{"Softmax", "LogSoftmax"} {
+		mkModel(lg+"{axis=1}(N,3,2)/big-sample", "x", []hx.DimSpec{N, fx(3), fx(2)}, batchIO{[]int{1, 3, 2}, 0}, nil, []*onnx.NodeProto{hx.Node(lg, []string{"x"}, []string{"y"}, []hx.Attr{hx.AInt("axis", 1)})}, nil, map[string]int{"y": 0}, nil, nil)
+		out[len(out)-1].Big = true
+		mkModel(lg+"{-1}(N,3)/big-sample", "x", []hx.DimSpec{N, fx(3)}, batchIO{[]int{1, 3}, 0}, nil, []*onnx.NodeProto{hx.Node(lg, []string{"x"}, []string{"y"}, []hx.Attr{hx.AInt("axis", -1)})}, nil, map[string]int{"y": 0}, nil, nil)
+		out[len(out)-1].Big = true
+	}
+	mkModel("Gemm+Tanh/big-sample", "x", []hx.DimSpec{N, fx(3)}, batchIO{[]int{1, 3}, 0}, nil, []*onnx.NodeProto{hx.Node("Gemm", []string{"x", "W", "b"}, []string{"h"}, nil), hx.Node("Tanh", []string{"h"}, []string{"y"}, nil)}, []*onnx.TensorProto{init("W", 3, 2), init("b", 2)}, map[string]int{"y": 0, "h": 0}, nil, nil)
+	out[len(out)-1].Big = true
+	// LSTM with peephole weights (input 7), with and without initial states
+	{
+		inits := []*onnx.TensorProto{init("W", 1, 8, 3), init("R", 1, 8, 2), init("B", 1, 16), init("P", 1, 6)}
+		outsL := map[string]int{"Y": 2, "Yh": 1, "Yc": 1}
+		mkModel("LSTM-peepholes-no-state", "x", []hx.DimSpec{fx(3), N, fx(3)}, batchIO{[]int{3, 1, 3}, 1}, nil, []*onnx.NodeProto{hx.Node("LSTM", []string{"x", "W", "R", "B", "", "", "", "P"}, []string{"Y", "Yh", "Yc"}, []hx.Attr{hx.AInt("hidden_size", 2)})}, inits, outsL, nil, nil)
+		mkModel("LSTM-peepholes-with-state", "x", []hx.DimSpec{fx(3), N, fx(3)}, batchIO{[]int{3, 1, 3}, 1}, nil, []*onnx.NodeProto{hx.Node("LSTM", []string{"x", "W", "R", "B", "", "h0", "c0", "P"}, []string{"Y", "Yh", "Yc"}, []hx.Attr{hx.AInt("hidden_size", 2)})}, inits, outsL,
+			map[string]batchIO{"h0": {[]int{1, 1, 2}, 1}, "c0": {[]int{1, 1, 2}, 1}}, map[string][]hx.DimSpec{"h0": {fx(1), N, fx(2)}, "c0": {fx(1), N, fx(2)}})
+		mkModel("GRU-linear_before_reset", "x", []hx.DimSpec{fx(3), N, fx(3)}, batchIO{[]int{3, 1, 3}, 1}, nil, []*onnx.NodeProto{hx.Node("GRU", []string{"x", "W6", "R6", "B12"}, []string{"Y", "Yh"}, []hx.Attr{hx.AInt("hidden_size", 2), hx.AInt("linear_before_reset", 1)})},
+			[]*onnx.TensorProto{init("W6", 1, 6, 3), init("R6", 1, 6, 2), init("B12", 1, 12)}, map[string]int{"Y": 2, "Yh": 1}, nil, nil)
+	}
 	// recurrent operators: batch axis 1
 	for _, op := range []string{"RNN", "GRU", "LSTM"} {
 		ng := map[string]int{"RNN": 1, "GRU": 3, "LSTM": 4}[op]
@@ -287,14 +315,14 @@ func batchModels(all bool) []*batchModel {
 
 func checkC16(c *hx.Checker) {
 	thorough := c.Tier == "thorough"
-	pool, maxLen := 3, 3
+	pool, maxLen := 4, 4
 	if thorough {
-		pool, maxLen = 4, 4
+		pool, maxLen = 5, 5
 	}
 	models := batchModels(thorough)
-	c.Rule = fmt.Sprintf("%d models: sample models mlp, scaler, gru (thorough: + ndm); generated per-sample models (Gemm/MatMul against weights, mlp, elementwise + activations, PRelu, Softmax/LogSoftmax over a non-batch axis, Scaler, LinearRegressor, Gather/Slice/Concat/ArgMax/Reduce on a non-batch axis, Reshape(0,-1), Flatten, Unsqueeze/Squeeze, Expand, Cast), each also behind 4 batch-preserving first stages (Relu, Add-bias, Mul, Tanh) = all 1- and 2-stage combinations; Conv 1-D/2-D (batch axis 0); RNN/GRU/LSTM with and without initial states and with seq=1 (batch axis 1); the Transpose>GRU>Squeeze>Transpose wrapping. "+
+	c.Rule = fmt.Sprintf("%d models: sample models mlp, scaler, gru (thorough: + ndm); generated per-sample models (Gemm/MatMul against weights, mlp, elementwise + activations, PRelu, Softmax/LogSoftmax over a non-batch axis, Scaler, LinearRegressor, Gather/Slice/Concat/ArgMax/Reduce on a non-batch axis, Reshape(0,-1), Flatten, Unsqueeze/Squeeze, Expand, Cast), each also behind 4 batch-preserving first stages (Relu, Add-bias, Mul, Tanh) = all 1- and 2-stage combinations; Conv 1-D/2-D (batch axis 0); RNN/GRU/LSTM with and without initial states and with seq=1 (batch axis 1); the Transpose>GRU>Squeeze>Transpose wrapping; LSTM with peephole weights, GRU with linear_before_reset; Softmax/LogSoftmax (last and non-last axis) and Gemm+Tanh with one sample of the pool 150 times larger than the others. "+
 		"per model: sample pool of %d distinct samples; EVERY batch = every sequence over the pool of length 1..%d (all permutations, sub-selections, repetitions, batch sizes). Oracle: position i of every batched output equals the output of evaluating that sample alone (N=1), rel 1e-5; non-trivial = batches of size >= 2", len(models), pool, maxLen)
-	c.Assumptions = []string{"'up to floating-point rounding': rel 1e-5 + abs 1e-6 (float32); the number of bit-identical cases is reported as an outcome class", "models are restricted to operators acting per sample along the batch axis, as in the statement"}
+	c.Assumptions = []string{"'up to floating-point rounding': rel 1e-5 + abs 1e-6 (float32; abs 2e-4 for the models with a sample of magnitude ~150, whose intermediates have an ulp of 3e-5); the number of bit-identical cases is reported as an outcome class", "models are restricted to operators acting per sample along the batch axis, as in the statement"}
 	type job struct {
 		bm    *batchModel
 		batch []int
@@ -329,7 +357,21 @@ func checkC16(c *hx.Checker) {
 		if i%900 == 5 {
 			sample = map[string]any{"model": j.bm.Name, "batch": j.batch}
 		}
-		c.Case(hx.CaseInfo{ID: fmt.Sprintf("%s/batch%v", j.bm.Name, j.batch), Tags: []string{"model=" + j.bm.Name, fmt.Sprintf("N=%d", len(j.batch))}, NonTrivial: len(j.batch) >= 2, Sample: sample},
+		tags := []string{"model=" + j.bm.Name, fmt.Sprintf("N=%d", len(j.batch))}
+		if j.bm.Big && j.batch[0] == 2 {
+			for _, k := range j.batch {
+				if k != 2 {
+					tags = append(tags, "big-sample-first-with-others")
+					if strings.Contains(j.bm.Name, "{-1}") {
+						// gorgonia's last-axis Softmax kernel shifts every row by max(x[0], row[1:]), x[0] being the
+						// first element of the WHOLE tensor, i.e. of the first sample of the batch (KF-C09-1 / KF-C16-1)
+						tags = append(tags, "lastaxis-softmax-big-sample-first")
+					}
+					break
+				}
+			}
+		}
+		c.Case(hx.CaseInfo{ID: fmt.Sprintf("%s/batch%v", j.bm.Name, j.batch), Tags: tags, NonTrivial: len(j.batch) >= 2, Sample: sample},
 			func() *hx.Violation { return j.bm.check(j.batch, pool) })
 	})
 }
